@@ -18,7 +18,7 @@ CRATES = ['jj-lib']
 NATIVE = None
 NATIVE_CONFIRM = False      # the conversion functions are private; the public path goes through files
 BOUNDS = {
-    'quick': 'views with 1-2 heads, 0-1 local bookmarks, 0-1 local tags, 0-1 remotes with 0-1 remote bookmarks and 0-1 remote tags (state New/Tracked), 0-1 git refs, 0-1 git heads, 1 workspace; targets resolved-present, resolved-absent (remote only) or a 3-term conflict with an absent term; names and ids are single symbolic bytes',
+    'quick': 'views with 1-2 heads, 0-1 local bookmarks, 0-1 local tags, 0-1 remotes with 0-1 remote bookmarks and 0-1 remote tags (state New/Tracked), 0-1 git refs, 0-1 git heads, 1 workspace; targets resolved-present, resolved-absent (remote only) or a 3-term conflict with one absent term in each of the three positions (add/add without base, change/delete, delete/change); names and ids are single symbolic bytes',
     'thorough': 'up to 2 local bookmarks and 2 remotes',
 }
 ASSUMPTIONS = [
@@ -29,8 +29,9 @@ ASSUMPTIONS = [
 BUDGET = {'quick': 900, 'thorough': 3000}
 F = 'lib/src/simple_op_store.rs'
 
-TARGETS = ['normal', 'conflict']            # for local refs
-RTARGETS = ['normal', 'absent', 'conflict'] # for remote refs
+# conflict = add/add with absent base, conflictd = change/delete (second add absent), conflictn = delete/change (first add absent)
+TARGETS = ['normal', 'conflict', 'conflictd', 'conflictn']            # for local refs
+RTARGETS = ['normal', 'absent', 'conflict', 'conflictd', 'conflictn'] # for remote refs
 
 def jobs(tier):
     out = []
@@ -57,6 +58,8 @@ def run_job(ix, job, tier):
     def target(kind):
         if kind == 'normal': terms = [SOME(cid())]
         elif kind == 'absent': terms = [NONE()]
+        elif kind == 'conflictd': terms = [SOME(cid()), SOME(cid()), NONE()]
+        elif kind == 'conflictn': terms = [NONE(), SOME(cid()), SOME(cid())]
         else: terms = [SOME(cid()), NONE(), SOME(cid())]
         return Agg([mk_merge(terms)], 'op_store::RefTarget')
     def bt(pairs):
